@@ -25,7 +25,7 @@ func TestProp(t *testing.T) {
 
 	replaying := env.Replay != ""
 	floors := map[string]int{
-		"class_proxied-200-auth": 100, "class_proxied-200-skip": 50, "class_proxied-404-auth": 10, "class_proxied-500-auth": 10,
+		"class_proxied-200-auth": 60, "class_proxied-200-skip": 30, "class_proxied-404-auth": 10, "class_proxied-500-auth": 10,
 		"class_proxied-304-auth": 3, "class_proxied-204-auth": 3,
 		"class_redirect-sign-in-302": 50, "class_xhr-401": 10, "class_xhr-403": 3,
 		"class_error-page-403-forbidden": 10, "class_error-page-401-revoked": 10, "class_error-page-500-internal": 10,
@@ -49,6 +49,7 @@ func TestProp(t *testing.T) {
 		floors[k] = v
 	}
 	for k, v := range floors {
+		v *= env.Pick(1, 8)
 		if replaying {
 			v = 0
 		}
